@@ -75,6 +75,36 @@ template <int K> struct Ev : EvTag {
     explicit Ev(int x) : p(x) {}
 };
 
+// shaped events (C20): size / alignment / copy-move traits; non-trivial kinds count live objects and carry a canary
+static const unsigned ALIVE = 0xA11FE5u, DEAD = 0xDEADDEADu;
+template <int K, int SIZE, int ALIGN, int KIND> struct EvS;      // KIND 0 trivially copyable, 1 non-trivial, 2 non-trivial with a throwing (not noexcept) move, 3 self-referential
+template <int K, int SIZE, int ALIGN> struct alignas(ALIGN) EvS<K, SIZE, ALIGN, 0> : EvTag {
+    static constexpr int idx = K; static constexpr int NPAD = SIZE > 8 ? SIZE - 8 : 1;
+    int p = 0; int dyn = K; unsigned char pad[NPAD];
+    EvS() { fill(); } explicit EvS(int x) : p(x) { fill(); }
+    void fill() { for (int k = 0; k < NPAD; k++) pad[k] = (unsigned char)(p * 31 + k * 7 + K); }
+    bool ok() const { for (int k = 0; k < NPAD; k++) if (pad[k] != (unsigned char)(p * 31 + k * 7 + K)) return false; return true; }
+};
+template <int K, int SIZE, int ALIGN, int KIND> struct alignas(ALIGN) EvS : EvTag {
+    static constexpr int idx = K; static constexpr int NPAD = SIZE > 24 ? SIZE - 24 : 1;
+    int p = 0; int dyn = K; unsigned canary = ALIVE; const EvS* self = nullptr; unsigned char pad[NPAD];
+    void fill() { for (int k = 0; k < NPAD; k++) pad[k] = (unsigned char)(p * 31 + k * 7 + K); }
+    bool ok() const {
+        if (canary != ALIVE) return false;
+        if (KIND == 3 && self != this) return false;
+        for (int k = 0; k < NPAD; k++) if (pad[k] != (unsigned char)(p * 31 + k * 7 + K)) return false;
+        return true; }
+    EvS() : self(this) { fill(); RT::live()++; }
+    explicit EvS(int x) : p(x), self(this) { fill(); RT::live()++; }
+    EvS(const EvS& o) : p(o.p), dyn(o.dyn), self(this) { if (!o.ok()) RT::badlife()++; std::memcpy(pad, o.pad, NPAD); RT::live()++; }
+    EvS(EvS&& o) noexcept(KIND != 2) : p(o.p), dyn(o.dyn), self(this) { if (!o.ok()) RT::badlife()++; std::memcpy(pad, o.pad, NPAD); RT::live()++; }
+    EvS& operator=(const EvS& o) { if (!o.ok() || canary != ALIVE) RT::badlife()++; p = o.p; dyn = o.dyn; std::memcpy(pad, o.pad, NPAD); return *this; }
+    EvS& operator=(EvS&& o) noexcept(KIND != 2) { if (!o.ok() || canary != ALIVE) RT::badlife()++; p = o.p; dyn = o.dyn; std::memcpy(pad, o.pad, NPAD); return *this; }
+    ~EvS() { if (canary != ALIVE) RT::badlife()++; canary = DEAD; RT::live()--; }
+};
+template <class E> auto ok_of(const E& e, int) -> decltype(e.ok()) { return e.ok(); }
+template <class E> bool ok_of(const E&, long) { return true; }
+
 struct EvDesc { int idx; int p; };   // idx -1: library start event, -2: library stop event, -3: none, -4: unknown
 
 // probes to look inside an 'any'
@@ -83,15 +113,15 @@ struct AnyProbe {
     bool (*sany)(const std::any&, EvDesc&);
 };
 inline std::vector<AnyProbe>& probes() { static std::vector<AnyProbe> v; return v; }
-template <class E> bool probe_b(const boost::any& a, EvDesc& d) { if (const E* e = boost::any_cast<E>(&a)) { d.idx = (E::idx == e->dyn ? e->dyn : -4); d.p = e->p; return true; } return false; }
-template <class E> bool probe_s(const std::any& a, EvDesc& d) { if (const E* e = std::any_cast<E>(&a)) { d.idx = (E::idx == e->dyn ? e->dyn : -4); d.p = e->p; return true; } return false; }
+template <class E> bool probe_b(const boost::any& a, EvDesc& d) { if (const E* e = boost::any_cast<E>(&a)) { d.idx = ((E::idx == e->dyn && ok_of(*e, 0)) ? e->dyn : -4); d.p = e->p; return true; } return false; }
+template <class E> bool probe_s(const std::any& a, EvDesc& d) { if (const E* e = std::any_cast<E>(&a)) { d.idx = ((E::idx == e->dyn && ok_of(*e, 0)) ? e->dyn : -4); d.p = e->p; return true; } return false; }
 template <class E> void reg_event() { probes().push_back(AnyProbe{&probe_b<E>, &probe_s<E>}); }
 
 template <class E, class En = void> struct Describe {
     static EvDesc get(const E&, int dflt) { return EvDesc{dflt, 0}; }
 };
 template <class E> struct Describe<E, typename std::enable_if<std::is_base_of<EvTag, E>::value>::type> {
-    static EvDesc get(const E& e, int) { return EvDesc{e.dyn, e.p}; }
+    static EvDesc get(const E& e, int) { if (!ok_of(e, 0)) { RT::badlife()++; return EvDesc{-4, e.p}; } return EvDesc{e.dyn, e.p}; }
 };
 template <> struct Describe<msm::front::none> { static EvDesc get(const msm::front::none&, int) { return EvDesc{-3, 0}; } };
 template <> struct Describe<boost::any> {
